@@ -119,3 +119,9 @@ mod tests {
         println!();
     }
 }
+
+/// Verification hooks (only compiled with `--cfg rten_verif`): re-exports of
+/// crate-private items so an external harness can call them directly.
+#[cfg(rten_verif)]
+#[doc(hidden)]
+pub mod verif {}
